@@ -995,6 +995,12 @@ func sentinelGlobal(g *ssa.Global) bool {
 // (other than its first block) select the edge of the actual predecessor; other
 // phis contribute all their edges.
 func resolveOnPath(v ssa.Value, path []*ssa.BasicBlock) []ssa.Value {
+	return resolveOnPathUntil(v, path, nil)
+}
+
+// resolveOnPathUntil: as resolveOnPath; a value for which stop holds is reported as it is (a
+// merge the caller knows something about, e.g. the operand of the test the path starts from).
+func resolveOnPathUntil(v ssa.Value, path []*ssa.BasicBlock, stop func(ssa.Value) bool) []ssa.Value {
 	pos := map[*ssa.BasicBlock]int{}
 	for i, b := range path {
 		pos[b] = i
@@ -1008,7 +1014,7 @@ func resolveOnPath(v ssa.Value, path []*ssa.BasicBlock) []ssa.Value {
 		}
 		seen[v] = true
 		phi, ok := v.(*ssa.Phi)
-		if !ok {
+		if !ok || (stop != nil && stop(v)) {
 			out = append(out, v)
 			return
 		}
@@ -2845,7 +2851,7 @@ func errorsReturnedRule(r *Report, f *ssa.Function, exact bool) {
 	returned := map[ssa.Value]bool{}
 	for _, ret := range returns(f) {
 		for _, v := range retVals(ret, res.Len()-1) {
-			for x := range w.backSlice(v, flowOpt{Through: map[string]bool{"fmt.Errorf": true}, CallArg: true}) {
+			for x := range w.backSlice(v, errWrapFlow) {
 				returned[x] = true
 			}
 		}
@@ -2917,12 +2923,16 @@ func errorsReturnedRule(r *Report, f *ssa.Function, exact bool) {
 							if bin, isBin := t.If.Cond.(*ssa.BinOp); isBin && (bin.X == v || bin.Y == v) {
 								continue
 							}
-							for _, l := range resolveOnPath(v, p) {
+							tested := func(x ssa.Value) bool {
+								bin, isBin := t.If.Cond.(*ssa.BinOp)
+								return isBin && (bin.X == x || bin.Y == x)
+							}
+							for _, l := range resolveOnPathUntil(v, p, tested) {
 								// what leaves on the failure edge is this error, a wrapping of it, or a
 								// fresh error: not nil, and not the outcome of a later step
-								isE := false
+								isE := tested(l) // the merge whose non-nil edge this is, handed on through further merges
 								for _, e := range errOf(c) {
-									if l == e || anyIn(w.backSlice(l, flowOpt{Through: map[string]bool{"fmt.Errorf": true}, CallArg: true}), func(x ssa.Value) bool { return x == e }) {
+									if l == e || anyIn(w.backSlice(l, errWrapFlow), func(x ssa.Value) bool { return x == e }) {
 										isE = true
 									}
 								}
@@ -4135,3 +4145,7 @@ func typedNilFieldRule(r *Report, rels ...string) {
 		r.Hold("flow", fmt.Sprintf("interface-typed fields in %v", rels), "no pointer parameter is boxed into an interface-typed field")
 	}
 }
+
+// errWrapFlow: how an error value travels into the error that is returned in its place: as an
+// argument of fmt.Errorf, or as text (err.Error(), possibly concatenated) handed to errors.New.
+var errWrapFlow = flowOpt{Through: map[string]bool{"fmt.Errorf": true, "errors.New": true, "(error).Error": true}, CallArg: true, BinOps: true}
